@@ -98,3 +98,33 @@ Proof.
     + exfalso. apply msg_index_lt in Ei. apply nth_error_None in Er. unfold inv in Hinv. lia.
   - cbn [is_panic r_minus mk r_body r_ok]. repeat split; try discriminate.
 Qed.
+
+(** * What the code does that a reader might not expect (documented, as coded) *)
+
+Definition out_bodies (w : world) : list (bool * body) := map (fun r => (r_ok r, r_body r)) (w_out w).
+
+(** A message this session marked deleted is still served by RETR. *)
+Example retr_after_dele_served :
+  last (out_bodies (run Mem (init_world ex_store)
+     [ln [65; 80; 79; 80; 32; 98; 32; 120]; ln [68; 69; 76; 69; 32; 49]; ln [82; 69; 84; 82; 32; 49]]))
+     (false, BNone)
+  = (true, BWire [65; 13; 10; 46; 13; 10]).
+Proof. vm_compute. reflexivity. Qed.
+
+(** The mailbox name is the USER/APOP argument verbatim: "B" is not "b" (finding K-C04-pop3-user
+    belongs to C04). *)
+Example user_verbatim :
+  map r_nums (w_out (run Mem (init_world ex_store) [ln [65; 80; 79; 80; 32; 66; 32; 120]])) = [[]; [0%Z]] /\
+  map r_nums (w_out (run Mem (init_world ex_store) [ln [65; 80; 79; 80; 32; 98; 32; 120]])) = [[]; [3%Z]].
+Proof. vm_compute. split; reflexivity. Qed.
+
+(** File store: RETR of a message somebody else removed answers "+OK" and then an
+    unterminated "-ERR"; the mem store still serves the bytes. *)
+Example file_retr_of_removed_message :
+  last (out_bodies (run File (init_world ex_store)
+     [ln [65; 80; 79; 80; 32; 98; 32; 120]; ERemove [98] [0]; ln [82; 69; 84; 82; 32; 49]])) (false, BNone)
+  = (true, BFail) /\
+  last (out_bodies (run Mem (init_world ex_store)
+     [ln [65; 80; 79; 80; 32; 98; 32; 120]; ERemove [98] [0]; ln [82; 69; 84; 82; 32; 49]])) (false, BNone)
+  = (true, BWire [65; 13; 10; 46; 13; 10]).
+Proof. vm_compute. split; reflexivity. Qed.
